@@ -468,6 +468,7 @@ Fixpoint mwalk (s : mstate) (serving : bool) (steps obs : list val) : N :=
                 | _ => [] end in
       match res with
       | VS "panic" => 5            (* C05: the step brought the backend side down *)
+      | VS "hung" => 5             (* ... or left it neither answering nor closing the connection *)
       | _ =>
           match val_NL nums with
           | Some a =>
